@@ -72,7 +72,19 @@ def _worker(args):
     modname, fname, item = args
     try:
         mod = importlib.import_module(modname)
-        return ("ok", getattr(mod, fname)(item))
+        res = getattr(mod, fname)(item)
+        if isinstance(res, dict):
+            from vf.symx import Explorer
+            c = Explorer.CROSS
+            if c["asked"]:
+                res.setdefault("extra", {})
+                res["extra"]["cvc5_asked"] = c["asked"]
+                res["extra"]["cvc5_agree"] = c["agree"]
+                res["extra"]["cvc5_inconclusive"] = c["inconclusive"]
+                res["extra"]["cvc5_disagreements"] = list(c["disagree"])[:2]
+                c["asked"] = c["agree"] = c["inconclusive"] = 0
+                c["disagree"] = []
+        return ("ok", res)
     except BaseException as e:  # noqa
         return ("err", "%s: %s\n%s" % (type(e).__name__, e, traceback.format_exc()))
 
@@ -158,9 +170,14 @@ def replay_batch(pid, datas, timeout=600):
     try:
         env = dict(os.environ)
         env.setdefault("PYTHONHASHSEED", "0")
-        p = subprocess.run(
-            [sys.executable, "-m", "vf.replay", "--batch", path],
-            cwd=VERIF, capture_output=True, text=True, timeout=timeout, env=env)
+        try:
+            p = subprocess.run(
+                [sys.executable, "-m", "vf.replay", "--batch", path],
+                cwd=VERIF, capture_output=True, text=True, timeout=timeout, env=env)
+        except subprocess.TimeoutExpired:
+            raise HarnessError("replay of %d candidate(s) did not finish within %d s" % (len(datas), timeout))
+        if False:
+            pass
         if p.returncode not in (0, 1):
             raise HarnessError("replay process failed rc=%s\n%s\n%s"
                                % (p.returncode, p.stdout[-2000:], p.stderr[-4000:]))
@@ -201,6 +218,7 @@ class Run:
         self.programs = 0
         self.selftests = {}
         self.extra = {}
+        self.max_replay = 60
 
     def absorb(self, part):
         """Merge a worker's result dict."""
@@ -242,6 +260,11 @@ class Run:
             key = dedup_key(c) if dedup_key else digest(c)
             uniq.setdefault(key, c)
         cands = list(uniq.values())
+        not_replayed = 0
+        if len(cands) > self.max_replay:
+            # enough witnesses: the remaining candidates are neither reported nor counted as unconfirmed
+            not_replayed = len(cands) - self.max_replay
+            cands = cands[:self.max_replay]
         results = []
         if cands:
             try:
@@ -288,6 +311,7 @@ class Run:
             "functions_entered": sorted(self.functions),
             "bounds": self.bounds,
             "candidates": len(cands),
+            "candidates_not_replayed": not_replayed,
             "unconfirmed_candidates": unconfirmed,
             "known_finding_hits": known_hits,
             "selftests": self.selftests,
@@ -300,6 +324,12 @@ class Run:
             cov["programs"] = self.programs
             cov["disagreements_checked"] = len(cands)
         cov.update(self.extra)
+        cov["paths_timed_out"] = st.get("timeouts", 0)
+        if st.get("timeouts", 0):
+            self.harness_errors.append("%d path(s) of the code under test exceeded the per-path wall budget "
+                                       "(a hang of the real code or a harness that is too slow): inconclusive" % st["timeouts"])
+        if self.extra.get("cvc5_disagreements"):
+            self.harness_errors.append("z3 and cvc5 disagree on a sampled query: %r" % self.extra["cvc5_disagreements"][:1])
         if self.notes:
             cov["notes"] = self.notes
         if self.harness_errors:
